@@ -254,26 +254,22 @@ def random_chunk(items, extra):
         reuse_cfg = {'variables': ['x'], 'answers': 'x+1'}
         for k in range(count):
             r = rng.random()
-            if r < 0.08:
-                try:
+            # at most ONE bystander action per observed call, so that whatever it leaves behind is still there
+            # when the snapshot is taken (a later bystander call could repair it again)
+            try:
+                if r < 0.05:
                     mg(None, rng.choice(['[[1,0],[0,1]]^-1', '[[1,0],[0,1]]', '[[2,0],[0,2]]^-1/0']))
-                except Exception:  # noqa
-                    pass
-                try:
-                    mg2(None, rng.choice(['[[1,2],[2,4]]^-1', '[[1,2],[3,4]]^-1', '[[1,2],[2,4]]^-2*0', '[1,2]/0', '[[1,0],[0,1]]^0.5']))
-                except Exception:  # noqa
-                    pass
-                try:
+                elif r < 0.10:
+                    mg2(None, rng.choice(['[[1,2],[2,4]]^-1', '[[1,2],[3,4]]^-1', '[[1,2],[2,4]]^-2*0', '[1,2]/0',
+                                          '[[1,0],[0,1]]^0.5']))
+                elif r < 0.14:
                     ng(None, rng.choice(['ln(0)', '1/0', '10^400', 'arcsin(2)', 'sqrt(-1)']))
-                except Exception:  # noqa
-                    pass
-            elif r < 0.14:
-                try:
+                elif r < 0.18:
                     lg(None, [rng.choice(['a', 'b', 'c']), rng.choice(['a', 'b'])])
-                except Exception:  # noqa
-                    pass
-            elif r < 0.18:
-                FormulaGrader(reuse_cfg)
+                elif r < 0.22:
+                    FormulaGrader(reuse_cfg)
+            except Exception:  # noqa
+                pass
             o = rng.choice(objs)
             spec = S[o['cname']]
             kinds = ['none', 'none', 'e1', 'e2'] + [kk for kk in ('badInfer', 'badPost', 'badCheck') if kk in spec]
